@@ -622,7 +622,7 @@ def run(ctx):
                 "streams (multiples of 1/8, 8-10 level shifts sized 0.25..4, segment length burn_in+2..3*burn_in+12) x burn_in {1,2,5,30} "
                 "x delta x threshold (incl. 0) x direction x known/estimated target x 6 input container forms. A case is non-trivial when "
                 "the implementation alarmed at least once; distinct = distinct (config, stream).")
-    n_c, n_p, nseg = (192, 192, 9) if ctx.quick else (1920, 1920, 12)
+    n_c, n_p, nseg = (192, 192, 9) if ctx.quick else (1300, 1300, 12)
     evaluate(ctx, fixed_cases(), "fixed")
     evaluate(ctx, exhaustive_cases(ctx.quick), "exh", twins=False)
     st = evaluate(ctx, random_cases(rng, n_c, n_p, nseg), "rnd")
